@@ -276,11 +276,22 @@ func c10Exec(in []string) []string {
 		k, v := c10Values(u.Query())
 		return []string{k, v, proto.B(u.RawQuery)}
 	case "S":
-		u, err := c10Way(c10Pick(in, 4), "example.test", "/", true, proto.UnL(in[1]), proto.UnL(in[2]), "/x", c10Writer{})
-		if err != nil {
-			return []string{"ERR", proto.B(err.Error())}
+		// the scheme is a function of the two scheme lists alone: every host, base path and pattern
+		// must give the same one (the model never sees them)
+		first := ""
+		for i, hbp := range [][3]string{{"example.test", "/", "/x"}, {"example.test:80", "/v1", "/pets/{id}/"}, {"[::1]:80", "/", "/x"},
+			{"example.test:443", "/", "/x?q=1"}, {"localhost:8080", "/http", "/ws"}, {"127.0.0.1", "/", "/"}, {"h:8443", "/", "/x"}} {
+			u, err := c10Way(c10Pick(in, 4), hbp[0], hbp[1], true, proto.UnL(in[1]), proto.UnL(in[2]), hbp[2], c10Writer{path: [][2]string{{"id", "7"}}})
+			if err != nil {
+				return []string{"ERR", proto.B(err.Error())}
+			}
+			if i == 0 {
+				first = u.Scheme
+			} else if u.Scheme != first {
+				return []string{proto.B(first + " but " + u.Scheme + " for host " + hbp[0] + " base " + hbp[1] + " pattern " + hbp[2])}
+			}
 		}
-		return []string{proto.B(u.Scheme)}
+		return []string{proto.B(first)}
 	case "U":
 		return c10URL(url.Parse(proto.UnB(in[1])))
 	case "E":
